@@ -1,6 +1,6 @@
 /-
-  C18 helper lemmas, part 2: the abstract (leaf-function) semantics of a merge-style patch, and
-  the proof that `Patch._apply_patch` (model: `applyInstr`) implements it whenever it returns.
+  C18 helper lemmas, part 2: the abstract (leaf-function) semantics of a merge-style patch —
+  as the repaired `Patch._apply_patch` (74dc18a) and RFC 7386 both implement it.
 -/
 import Kopf.Lemmas.C18_Leaf
 namespace Kopf.C18
@@ -11,7 +11,7 @@ mutual
   /-- what the instruction `v` at path `P` does to a leaf function -/
   def absInstr (M : LeafMap) (P : List String) : J → LeafMap
     | .null => delA M P
-    | .obj pk => absKvs M P pk
+    | .obj pk => absKvs (clrA M P) P pk
     | .bool b => setA M P (.bool b)
     | .num n => setA M P (.num n)
     | .str s => setA M P (.str s)
@@ -21,20 +21,15 @@ mutual
     | (k, v) :: rest => absKvs (absInstr M (P ++ [k]) v) P rest
 end
 
-theorem absInstr_leaf (M : LeafMap) (P : List String) (v : J) (ho : v.isObj = false) (hn : v.isNull = false) :
-    absInstr M P v = setA M P v := by
-  cases v <;> simp_all [absInstr, isObj, isNull]
+theorem clrA_frame (M : LeafMap) (P q : List String) (h : pre P q = false) : clrA M P q = M q := by
+  simp [clrA, h]
 
-theorem applyInstr_leaf (b : J) (P : List String) (v : J) (ho : v.isObj = false) (hn : v.isNull = false) :
-    applyInstr b P v = ensure b P v := by
-  cases v <;> simp_all [applyInstr, isObj, isNull]
-
-/-! ### frame: an instruction at `P` only touches paths below `P` -/
+/-! ### frame: an instruction at `P` only touches paths at or below `P` -/
 mutual
   theorem absInstr_frame : ∀ (v : J) (M : LeafMap) (P q : List String), pre P q = false →
       absInstr M P v q = M q
     | .null, M, P, q, h => by simp [absInstr, delA, h]
-    | .obj pk, M, P, q, h => by rw [absInstr]; exact absKvs_frame pk M P q h
+    | .obj pk, M, P, q, h => by rw [absInstr, absKvs_frame pk _ P q h, clrA_frame M P q h]
     | .bool _, M, P, q, h => by simp [absInstr, setA, h]
     | .num _, M, P, q, h => by simp [absInstr, setA, h]
     | .str _, M, P, q, h => by simp [absInstr, setA, h]
@@ -61,11 +56,15 @@ theorem shift_delA (k : String) (M : LeafMap) (P : List String) :
     shiftM k (delA M (k :: P)) = delA (shiftM k M) P := by
   funext r; simp [shiftM, delA]
 
+theorem shift_clrA (k : String) (M : LeafMap) (P : List String) :
+    shiftM k (clrA M (k :: P)) = clrA (shiftM k M) P := by
+  funext r; simp [shiftM, clrA]
+
 mutual
   theorem absInstr_shift : ∀ (v : J) (k : String) (M : LeafMap) (P : List String),
       shiftM k (absInstr M (k :: P) v) = absInstr (shiftM k M) P v
     | .null, k, M, P => by simp [absInstr, shift_delA]
-    | .obj pk, k, M, P => by rw [absInstr, absInstr]; exact absKvs_shift pk k M P
+    | .obj pk, k, M, P => by rw [absInstr, absInstr, absKvs_shift pk k _ P, shift_clrA]
     | .bool _, k, M, P => by simp [absInstr, shift_setA]
     | .num _, k, M, P => by simp [absInstr, shift_setA]
     | .str _, k, M, P => by simp [absInstr, shift_setA]
@@ -75,35 +74,6 @@ mutual
     | [], _, _, _ => rfl
     | (k', v) :: rest, k, M, P => by
         rw [absKvs, absKvs, absKvs_shift rest k _ P, List.cons_append, absInstr_shift v k M (P ++ [k'])]
-end
-
-/-! ### `_apply_patch` implements the abstract semantics (whenever it returns) -/
-mutual
-  theorem applyInstr_sem : ∀ (v : J) (b b' : J) (P : List String),
-      applyInstr b P v = .ok b' → leafAt b' = absInstr (leafAt b) P v
-    | .null, b, b', P, h => by
-        funext q; simp only [applyInstr] at h; simpa [absInstr] using remove_leaf P b b' h q
-    | .obj pk, b, b', P, h => by
-        simp only [applyInstr] at h; rw [absInstr]; exact applyKvs_sem pk b b' P h
-    | .bool x, b, b', P, h => by
-        funext q; simp only [applyInstr] at h; simpa [absInstr] using ensure_leaf (.bool x) rfl P b b' h q
-    | .num x, b, b', P, h => by
-        funext q; simp only [applyInstr] at h; simpa [absInstr] using ensure_leaf (.num x) rfl P b b' h q
-    | .str x, b, b', P, h => by
-        funext q; simp only [applyInstr] at h; simpa [absInstr] using ensure_leaf (.str x) rfl P b b' h q
-    | .arr x, b, b', P, h => by
-        funext q; simp only [applyInstr] at h; simpa [absInstr] using ensure_leaf (.arr x) rfl P b b' h q
-  theorem applyKvs_sem : ∀ (pk : List (String × J)) (b b' : J) (P : List String),
-      applyKvs b P pk = .ok b' → leafAt b' = absKvs (leafAt b) P pk
-    | [], b, b', P, h => by simp [applyKvs] at h; subst h; rfl
-    | (k, v) :: rest, b, b', P, h => by
-        simp only [applyKvs] at h
-        cases h1 : applyInstr b (P ++ [k]) v with
-        | error e => simp [h1] at h
-        | ok b1 =>
-          simp only [h1] at h
-          rw [absKvs, ← applyInstr_sem v b b1 (P ++ [k]) h1]
-          exact applyKvs_sem rest b1 b' P h
 end
 
 end Kopf.C18
